@@ -294,3 +294,27 @@ def judge_universe_memo(rep, pid, family, depth):
                           f"{common.canon(m['exp'])[:240]}")
     rep.bounds[f"universe_{family}_d{depth}_memo"] = dict(grammars=len(uni), inputs=len(inputs), compared=n)
     return n
+
+
+def replay_witnesses(rep, pid, compare=D.strip_far):
+    """Each listed open finding's stored witness is replayed at the start of a run; KNOWN-FINDING is
+    printed only while the witness still departs from the documented semantics (Peg!Outcome with D = {})."""
+    fs = [f for f in common.open_findings(pid) if isinstance(f.get("witness"), dict) and "raw" in f["witness"]]
+    if not fs:
+        return
+    cases = []
+    for i, f in enumerate(fs):
+        raw = f["witness"]["raw"]
+        cases.append(dict(id=i, g=raw["g"], cfg=raw["cfg"], s=raw["s"], devs=[[]]))
+    res, st = tlc.oracle("PegOracle", cases)
+    rep.add_oracle("PegOracle[witnesses]", st)
+    for i, f in enumerate(fs):
+        raw = f["witness"]["raw"]
+        try:
+            real = real_outcome(D.Built(raw["g"], raw["cfg"]), G.text(raw["s"]))
+        except Exception as e:
+            real = {"accept": "grammar refused", "model": {"t": "exc", "v": str(e)}}
+        if common.canon(compare(real)) != common.canon(compare(res[i]["out"][0])):
+            rep.known_finding(f["id"], describe(raw))
+        else:
+            rep.note(f"finding {f['id']}: stored witness no longer misbehaves")
